@@ -174,7 +174,7 @@ CHECKS['C01'] = {
             'operations (depth 2, 3 thorough) deduplicated by register contents. Oracle: exact equality with an '
             'independent NumPy model; non-output registers bit-identical; gaps of strided outputs untouched.',
     'note': 'exact arithmetic on dyadic alphabets (float32 included); NaN only in an out that is not an operand; '
-            'overlapping memory of distinct objects is outside the contract and not explored',
+            'an out that overlaps an operand without being identical to it is outside the contract and not explored (operands that only are read may overlap and are explored)',
     'technique': 'bounded exhaustive configuration-space + operation-history exploration against a reference model',
 }
 CHECKS['C02'] = {
